@@ -156,6 +156,21 @@ def check(run: Run) -> None:
                 names = (("attr", V, "attr"), ("attr", nodep, "attr"))
                 if c_[0] == "op" and c_[1] == "Compare:Eq" and ((c_[2][0] == kv and c_[2][1] in names) or (c_[2][1] == kv and c_[2][0] in names)):
                     ok = True
+    if not ok:
+        # loop form: for e, k in enumerate(keys): if k.value == name: idx = e  (the last match stays)
+        en = ("app", ("global", "builtins.enumerate"), (keys_t,), ())
+        kv = ("attr", ("index", ("elem", en), 1), "value")
+        names = (("attr", V, "attr"), ("attr", nodep, "attr"))
+        for n in own_nodes(fi):
+            if not (isinstance(n, ast.Assign) and len(n.targets) == 1 and isinstance(n.targets[0], ast.Name) and fa.cfg.has_node(n)):
+                continue
+            if strip_sites(fa.term_of(n.value, fa.cfg.node_of(n))) != ("index", ("elem", en), 0):
+                continue
+            for a, pol in Facts(fa, n).atoms:
+                if pol and isinstance(a, ast.Compare) and len(a.ops) == 1 and isinstance(a.ops[0], ast.Eq):
+                    l_, r_ = strip_sites(fa.term_of(a.left, fa.cfg.node_of(n))), strip_sites(fa.term_of(a.comparators[0], fa.cfg.node_of(n)))
+                    if (l_ == kv and r_ in names) or (r_ == kv and l_ in names):
+                        ok = True
     run.check(ok, "C08.R1", fi, fi.node, "dict key is matched by value equality with the attribute name", "dict-literal attribute does not select the key equal to the attribute name")
 
     # the type of a processed call is recorded for the node handed back *and* for the node it replaces
